@@ -55,6 +55,18 @@ CLAIMS = {
         "the functions the theorems are about. Pairwise, outer (eager/lazy, all shape pairs), distance-matrix and "
         "misorientation APIs are compared with an independent brute force on every run. The bound by the maximal "
         "disorientation angle is measured only; that the live symmetry lists are groups is C03."),
+ "C05": dict(category="proof", design_ref="DESIGN.md section 5 C05",
+   technique="Lean 4 theorems (large cell = minimal-angle set by the cyclic trace identity; loop invariants of the reduction; decision table) + differential run of the reduction loop and brute-force orbit oracle",
+   text="Proved for all misorientations and all finite groups: the large cell (Voronoi cell of the identity among the "
+        "distinguished points gr.gl) is exactly the set of orbit members of maximal |Re|, i.e. minimal rotation angle; the "
+        "reduction loop returns gl.M.gr for operations of the two lists, returns an element inside the region whenever one "
+        "exists, is of minimal angle given that the region lies in the large cell, and is idempotent on results inside; "
+        "get_proper_groups is total except exactly for two improper groups without inversion (explicit error). PARTIAL: that "
+        "the region orix constructs (pruned large-cell normals intersected with the axis fundamental zone) lies in the large "
+        "cell and meets every orbit is not proved; it is measured on every run against a brute-force minimum over the orbit "
+        "for every group alone, paired with itself and for random ordered pairs, including points on region faces, edges "
+        "and vertices. The model loop (with the model of get_proper_groups) is run against the implementation on the same "
+        "region normals."),
 }
 REASONS = {}
 checks = []
